@@ -1526,6 +1526,13 @@ def run_check(pid, tier, seed, t0):
     reg = registry().get(pid, {"modules": [], "theorems": []})
     if reg["modules"]:
         proof = wee.prove(pid, reg)
+        if tier == "thorough" and not proof["problems"]:
+            # independent re-check of the compiled property modules by the toolchain's `leanchecker`
+            rc, out, err = wee.run(["lake", "env", "leanchecker"] + reg["modules"], cwd=wee.LEAN, timeout=3600)
+            proof["leanchecker"] = "ok" if rc == 0 else ("failed: " + (out + err)[-400:])
+            proof["checker_cmd"] += " && lake env leanchecker " + " ".join(reg["modules"])
+            if rc != 0:
+                proof["problems"].append("leanchecker rejected a property module: " + (out + err)[-400:])
     else:
         okd, outd = wee.lake_build(["weedriver"])
         proof = {"obligations": [], "discharged": [], "problems": ["no theorem registered"] + ([] if okd else ["driver build failed: " + outd[-400:]]), "checker_cmd": ""}
